@@ -11,8 +11,9 @@
 (* on every case of a bounded class and emits the case with what the       *)
 (* specification says the observable result (or the post-condition) is;    *)
 (* harness/c17_bridges.py replays every line on the real functions.        *)
-(* The penalty closures of with_penalty are those of pen/Penalty.tla       *)
-(* (INSTANCE Pn: a one-level chain over base 0 at iteration c.it).         *)
+(* The penalty closures of with_penalty are those of PenaltyC17.tla (the   *)
+(* frozen copy of pen/Penalty.tla of commit 2f4c29d;                       *)
+(* INSTANCE Pn: a one-level chain over base 0 at iteration c.it).          *)
 (*                                                                         *)
 (* Families (c.fam):                                                       *)
 (*  "withpen"   p = with_penalty(ptype,args=(d,),k,h)(cond) on the points  *)
@@ -71,10 +72,10 @@ BPart   == IF "C17B_PART" \in DOMAIN IOEnv THEN atoi(IOEnv.C17B_PART) ELSE 0
 -----------------------------------------------------------------------------
 (* the penalty closures of mystic.penalty: Penalty.tla, a one-level chain at iteration c.it *)
 ZeroBase == [x \in 1..M |-> 0]
-Pn == INSTANCE Penalty WITH Chains <- WPChains, NX <- M, CondTab <- WPCond, BaseTab <- <<ZeroBase>>,
+Pn == INSTANCE PenaltyC17 WITH Chains <- WPChains, NX <- M, CondTab <- WPCond, BaseTab <- <<ZeroBase>>,
                             MaxN <- 3, MaxLen <- 1, IterArgs <- {}, StoreArgs <- {},
                             cid <- c.cid, n <- <<c.it>>, ys <- << << >> >>, last <- 0
-P0 == INSTANCE Penalty WITH Chains <- WPChains, NX <- M, CondTab <- WPCond, BaseTab <- <<ZeroBase>>,
+P0 == INSTANCE PenaltyC17 WITH Chains <- WPChains, NX <- M, CondTab <- WPCond, BaseTab <- <<ZeroBase>>,
                             MaxN <- 3, MaxLen <- 1, IterArgs <- {}, StoreArgs <- {},
                             cid <- c.cid, n <- <<0>>, ys <- << << >> >>, last <- 0     \* after clear()
 Probe(x) == ((x + c.d) % M) + 1          \* the condition is read at (x + d) % M
@@ -115,7 +116,7 @@ CasesOf(f) ==
     [] f = "aspen"    -> [fam : {f}, k : Kons, d : A2]
     [] f = "vect"     -> [fam : {f}, k : Kons, d : A2]
     [] f = "vectr"    -> [fam : {f}, t : T1s, d : A2]
-    [] f = "scalar"   -> [fam : {f}, v : UNION {[1..l -> QV] : l \in 1..SL}]
+    [] f = "scalar"   -> [fam : {f}, v : UNION {[1..l -> QV] : l \in 0..SL}]             \* (the empty vector included)
     [] f = "uniq"     -> {u \in      [fam : {f}, s : USeqs, form : {"none", "int", "float"}, r : {<<0, 0>>}]
                                 \cup [fam : {f}, s : USeqs, form : {"set", "range", "dict", "dictint"}, r : URanges]
                             : UAdmissible(u)}
@@ -133,6 +134,10 @@ BSpec == BInit /\ [][BNext]_c
 -----------------------------------------------------------------------------
 (* with_penalty *)
 WPLevel   == Pn!Lv(1)
+(* the documented defaults of the penalty types: k=100 (the uniform types: inf; the Lagrange types: 20), h=5.
+   A case whose (k, h) are the defaults of its type may be written without them: with_penalty(ptype)(cond) *)
+WPDefKH(ty) == IF ty \in {Pn!UE, Pn!UI} THEN <<Pn!INF, 5>> ELSE IF ty \in {Pn!LGI, Pn!LGE} THEN <<20, 5>> ELSE <<100, 5>>
+WPIsDefault == <<WPLevel.k, WPLevel.h>> = WPDefKH(WPLevel.ty)
 WPPen(x)  == Pn!EvalFrom(1, Probe(x))            \* p(x) at iteration c.it: 0.0 + the type's documented term
 WPPen0(x) == P0!EvalFrom(1, Probe(x))            \* after p.clear()
 WPErr2(x) == Pn!Err2From(1, Probe(x))            \* p.error(x)^2  (INF: the condition divides by zero)
@@ -282,7 +287,7 @@ BEmit ==
   CASE c.fam = "withpen" ->
          LET SolT(t) == LET O(x) == WPSol(t, x) IN BoolTab(O, M)
          IN PrintT(<<"@@", ToJson([fam |-> c.fam, ty |-> Pn!TypeName[WPLevel.ty], k |-> WPLevel.k, h |-> WPLevel.h,
-                     cond |-> WPCond[WPLevel.c], it |-> c.it, d |-> c.d, cost |-> Seq1(c.cost),
+                     cond |-> WPCond[WPLevel.c], it |-> c.it, d |-> c.d, cost |-> Seq1(c.cost), dflt |-> WPIsDefault,
                      pen |-> VTs(WPPen), pen0 |-> VTs(WPPen0), add |-> VTs(WPAdd),
                      err2 |-> [p \in 1..M |-> WPErr2(p - 1)],
                      sol |-> [t \in Tols |-> [tol |-> t, acc |-> SolT(t)]],
